@@ -7,10 +7,18 @@ from ..terms import show
 _CACHE = {}
 
 
-def get(ctx):
+def get(ctx, rep=None):
     if 'pa' not in _CACHE:
         _CACHE['pa'] = policy.PolicyAnalysis(ctx).run()
-    return _CACHE['pa']
+    pa = _CACHE['pa']
+    if rep is not None:
+        # a std/core function without a model becomes an opaque value: what it does to the cells is not seen
+        gaps = sorted(n for n in pa.unmodelled if n.startswith(('std::', 'core::', 'alloc::')) or n.startswith('<') and
+                      (' as std::' in n or ' as core::' in n) and 'chrono::' not in n)
+        if gaps:
+            rep.ob('engine', 'unmodelled-library-calls-in-policy-layer', None,
+                   f'{len(gaps)} library function(s) without a model were reached: {gaps[:4]} - their effects are not decided')
+    return pa
 
 
 def classify_policies(ctx):
